@@ -3,8 +3,12 @@ use crate::iter::Bytes;
 #[inline]
 #[target_feature(enable = "avx2")]
 pub unsafe fn match_uri_vectored(bytes: &mut Bytes) {
+    #[cfg(httparse_verif)]
+    crate::_verif::mark(crate::_verif::B_AVX2_URI);
     while bytes.as_ref().len() >= 32 {
 
+        #[cfg(httparse_verif)]
+        crate::_verif::bump(&crate::_verif::BLOCKS, 1);
         let advance = match_url_char_32_avx(bytes.as_ref());
 
         bytes.advance(advance);
@@ -80,7 +84,11 @@ unsafe fn match_url_char_32_avx(buf: &[u8]) -> usize {
 
 #[target_feature(enable = "avx2")]
 pub unsafe fn match_header_value_vectored(bytes: &mut Bytes) {
+    #[cfg(httparse_verif)]
+    crate::_verif::mark(crate::_verif::B_AVX2_VALUE);
     while bytes.as_ref().len() >= 32 {
+        #[cfg(httparse_verif)]
+        crate::_verif::bump(&crate::_verif::BLOCKS, 1);
         let advance = match_header_value_char_32_avx(bytes.as_ref());
         bytes.advance(advance);
 
